@@ -44,8 +44,8 @@ CLAIMED = {
    note="JSON text layer (serde_json_wasm) outside: harness-supplied Serializer/Deserializer stand in its place; argument types u8/u32/u64/bool; names <= 7 bytes; program dimension sampled (17 handlers incl. multi-word and digit-bearing names); trusted: Kani/CBMC/cadical, HSpec table",
    ref="§3 C01"),
  "C11": dict(
-   text="CBMC decides IntoMsg::into_msg over EVERY CosmosMsg variant compiled in (feature sets default and staking+stargate+cosmwasm_2_0) with symbolic id / gas limit / reply trigger / payload: Err exactly for the custom-typed message, otherwise all fields equal (this harness found the missing Stargate arm, now fixed); IntoResponse::into_response with 0/1/2 sub-messages, 0..1 attribute, 0..1 event, optional data: order and every field preserved, and Err for a custom-typed message; the generated `: custom(query)` arms (exec, sudo, query) hand the caller's storage/api/querier/env/sender to the Empty-typed interface handler and return its outcome intact.",
-   note="the generated exec/sudo arms for `: custom(msg)` as a whole (dispatch composed with into_response) exceed the budget (minimal instance > 700 s; symbolic shape > 30 GB) and are OUTSIDE: their pieces are decided separately; heavy CosmosMsg payloads compared at variant level; <= 2 sub-messages; stubs: Backtrace::capture, fmt::format",
+   text="CBMC decides IntoMsg::into_msg over EVERY CosmosMsg variant compiled in (feature sets default and staking+stargate+cosmwasm_2_0) with symbolic id / gas limit / reply trigger / payload: Err exactly for the custom-typed message, otherwise all fields equal (this harness found the missing Stargate arm, now fixed); IntoResponse::into_response with 0/1 sub-messages, 0..1 attribute, 0..1 event, optional (also present-but-empty) data, and two attributes + two events in order: every field preserved, and Err for a custom-typed message; the generated `: custom(query)` arms (exec, sudo, query) hand the caller's storage/api/querier/env/sender to the Empty-typed interface handler and return its outcome intact.",
+   note="the generated exec/sudo arms for `: custom(msg)` as a whole (dispatch composed with into_response) exceed the budget (minimal instance > 700 s; symbolic shape > 30 GB) and are OUTSIDE: their pieces are decided separately; heavy CosmosMsg payloads compared at variant level; <= 1 sub-message through into_response (the 2-message instance does not finish: order of sub-messages not decided); stubs: Backtrace::capture, fmt::format",
    ref="§3 C11"),
  "C08": dict(
    text="CBMC decides, for the generated SubMsgMethods builders of all 9 handler names of corpus `replies` on all three receiver types (existing SubMsg with symbolic id/gas limit/reply_on/payload, WasmMsg::Execute, CosmosMsg::Bank): id = the generated constant, reply_on = exactly the outcomes that have a method in the oracle table, wrapped message and (for SubMsg) gas limit intact, raw payload byte for byte; and, per handler name, the round trip builder -> real dispatch_reply delivers the same 3 symbolic payload bytes to the method the table names for the (symbolic) outcome. Typed payloads: builder-side bytes for one/two one-digit values.",
